@@ -403,9 +403,11 @@ pub fn run(prop: &'static str, tier: Tier) -> i32 {
         ("C02", _) => 3,
         ("C07", Tier::Quick) => 3,
         ("C07", Tier::Thorough) => 2,
-        ("C10", _) => 1,
+        ("C10", Tier::Quick) => 1,
+        ("C10", Tier::Thorough) => 2,
+        ("C18", Tier::Thorough) => 3,
         ("C11", Tier::Quick) => 3,
-        ("C11", Tier::Thorough) => 2,
+        ("C11", Tier::Thorough) => 3,
         _ => 0,
     };
     let mut plans = plans;
